@@ -14,7 +14,10 @@ import (
 
 func init() { register("C04", runC04) }
 
-var c04Events = []string{"PUB2(id1)", "PUB2(id1,dup)", "PUB2(id2)", "PUBREL(1)", "PUBREL(2)", "PUB1(id1)", "cut+reconnect(clean0)", "cut+reconnect(clean1)", "takeover(clean0)"}
+var c04Events = []string{"PUB2(id1)", "PUB2(id1,dup)", "PUB2(id2)", "PUBREL(1)", "PUBREL(2)", "PUB1(id1)", "cut+reconnect(clean0)", "cut+reconnect(clean1)", "takeover(clean0)", "PUB2(id2) and the connection is lost before the PUBREC can be written, reconnect(clean0)"}
+
+// c04MainN: the main trees use the first c04MainN events.
+const c04MainN = 9
 
 func c04Names(seq []int) []string {
 	out := make([]string, len(seq))
@@ -97,8 +100,19 @@ func c04Run(c *explore.Ctx, version byte, seq []int, pubRecvMax ...uint16) int {
 				delete(awaiting, id)
 			case 5:
 				pub(1, 1, false)
-			case 6, 7, 8:
+			case 6, 7, 8, 9:
 				clean := e == 7
+				if e == 9 {
+					// the PUBLISH is in the broker's socket buffer when the connection dies: it is read,
+					// forwarded (unless a retransmission) and recorded, its PUBREC cannot be written
+					npub++
+					payload := fmt.Sprintf("m%d", npub)
+					p.Send(&refmqtt.Packet{Type: refmqtt.PUBLISH, Topic: "t", QoS: 2, PacketID: 2, Payload: []byte(payload)})
+					if !awaiting[2] {
+						wantFwd = append(wantFwd, payload)
+					}
+					awaiting[2] = true
+				}
 				if e != 8 {
 					p.Close()
 					vsched.Settle()
@@ -263,9 +277,76 @@ func c04Burst(c *explore.Ctx, version byte, n int, kind string) {
 	})
 }
 
+// c04LostAck: the publisher's connection dies right after it sent a QoS 2 PUBLISH (the
+// broker may or may not get to read it, to forward it, to write the PUBREC); the publisher
+// resumes its session and retransmits.  In every schedule the message reaches the
+// subscriber exactly once and the flow completes.
+type c04LostObs struct {
+	problems [][3]string
+	outcome  string
+}
+
+func c04LostAckBody(obs *c04LostObs, version byte) func() {
+	return func() {
+		*obs = c04LostObs{}
+		bad := func(rule, class, detail string) { obs.problems = append(obs.problems, [3]string{rule, class, detail}) }
+		w := harness.NewWorld(harness.DefaultConfig(), server.Hooks{})
+		if w.InitErr != nil {
+			bad("init", "failed", w.InitErr.Error())
+			return
+		}
+		s := w.Dial("S")
+		s.Connect(harness.ConnectOpts{ClientID: "sub", Clean: true, Version: refmqtt.V5})
+		s.Subscribe(0, refmqtt.Sub{Filter: "t", QoS: 0})
+		opts := harness.ConnectOpts{ClientID: "pub", Clean: false, Version: version}
+		if version == refmqtt.V5 {
+			opts.Props = &refmqtt.Props{SessionExpiry: harness.U32(3600)}
+		}
+		p := w.Dial("P0")
+		p.Connect(opts)
+		vsched.Go("publisher-dies", func() {
+			p.Send(&refmqtt.Packet{Type: refmqtt.PUBLISH, Topic: "t", QoS: 2, PacketID: 2, Payload: []byte("once")})
+			p.Close()
+		})
+		vsched.Settle()
+		p2 := w.Dial("P1")
+		if ack := p2.Connect(opts); ack == nil || ack.Code != 0 || !ack.SessionPresent {
+			bad("reconnect", "session-not-resumed", fmt.Sprint(ack))
+			return
+		}
+		p2.Send(&refmqtt.Packet{Type: refmqtt.PUBLISH, Topic: "t", QoS: 2, PacketID: 2, Dup: true, Payload: []byte("once")})
+		vsched.Settle()
+		if stampOf(p2, refmqtt.PUBREC, 2) == 0 {
+			bad("acks", "retransmission-after-a-lost-connection-not-acknowledged", "no PUBREC(2)")
+		}
+		p2.Send(&refmqtt.Packet{Type: refmqtt.PUBREL, PacketID: 2})
+		vsched.Settle()
+		if stampOf(p2, refmqtt.PUBCOMP, 2) == 0 {
+			bad("acks", "pubrel-after-a-lost-connection-not-answered", "no PUBCOMP(2)")
+		}
+		n := 0
+		for _, r := range s.Recv() {
+			if r.P != nil && r.P.Type == refmqtt.PUBLISH && string(r.P.Payload) == "once" {
+				n++
+			}
+		}
+		if n != 1 {
+			cl := "duplicate-forward-after-the-connection-died-around-the-pubrec"
+			if n == 0 {
+				cl = "message-never-forwarded-after-the-connection-died"
+			}
+			bad("exactly-once", cl, fmt.Sprintf("subscriber received %d copies", n))
+		}
+		if pn := w.SwallowedPanic(); pn != "" {
+			bad("no-panic", "recovered: "+trimTo(pn, 80), pn)
+		}
+		obs.outcome = fmt.Sprint(n)
+	}
+}
+
 func runC04(c *explore.Ctx) {
 	c.Level = "model_checking"
-	c.Rule = "E2: every sequence of publisher events (QoS2 publish id1/id2, DUP retransmission, PUBREL, QoS1 publish, cut+reconnect clean 0/1, take-over) up to the depth, for a v5 and a v3.1.1 publisher (and, one level shallower, a v5 publisher announcing Receive Maximum 1 itself), executed on a fresh in-process broker under the cooperative scheduler; after every event the acks on the publisher socket and the payloads forwarded to an independent QoS0 subscriber are compared with a reference 'awaiting PUBREL' set. Burst part: 12/30/45 QoS 2 flows opened in lock step, then all PUBRELs (or as many QoS 1 publishes) sent in one burst to a broker whose replies pile up behind a full socket and outbound channel (the client does not read): afterwards every PUBREL has exactly one PUBCOMP, every QoS 1 PUBLISH one PUBACK. states = distinct valid event prefixes, transitions = events applied."
+	c.Rule = "E2: every sequence of publisher events (QoS2 publish id1/id2, DUP retransmission, PUBREL, QoS1 publish, cut+reconnect clean 0/1, take-over) up to the depth, for a v5 and a v3.1.1 publisher (and, one level shallower, a v5 publisher announcing Receive Maximum 1 itself), executed on a fresh in-process broker under the cooperative scheduler; after every event the acks on the publisher socket and the payloads forwarded to an independent QoS0 subscriber are compared with a reference 'awaiting PUBREL' set; a smaller tree adds the event 'QoS 2 PUBLISH read by the broker, connection lost before the PUBREC can be written, session resumed'. E3: the publisher's connection dies right after a QoS 2 PUBLISH was sent, under every schedule with <=k deviations (the broker may or may not read it, forward it, write the PUBREC); after resume and retransmission the subscriber has exactly one copy. Burst part: 12/30/45 QoS 2 flows opened in lock step, then all PUBRELs (or as many QoS 1 publishes) sent in one burst to a broker whose replies pile up behind a full socket and outbound channel (the client does not read): afterwards every PUBREL has exactly one PUBCOMP, every QoS 1 PUBLISH one PUBACK. states = distinct valid event prefixes, transitions = events applied."
 	c.Trusted = []string{"vsched scheduler semantics (default schedule, 0 deviations)", "refmqtt codec"}
 	if rc := replayCase(c); rc != nil {
 		prm, _ := rc["publisher_receive_maximum"].(float64)
@@ -288,7 +369,29 @@ func runC04(c *explore.Ctx) {
 			}
 		}
 	}
-	treeUnits(c, "tree-v5-publisher-recvmax1", len(c04Events), depth-1, func(seq []int) int {
+	{
+		bound := 1
+		if !c.Quick() {
+			bound = 2
+		}
+		for _, v := range []byte{refmqtt.V5, refmqtt.V311} {
+			obs := &c04LostObs{}
+			schedScenario(c, fmt.Sprintf("publisher-dies-after-sending-a-qos2-publish-v%d", v), bound, func() [][3]string { return obs.problems }, func() string { return obs.outcome }, c04LostAckBody(obs, v), map[string]any{"version": v})
+		}
+	}
+	// the connection dies between the broker reading a QoS 2 PUBLISH and writing its PUBREC
+	lostAlpha := []int{9, 2, 4, 0, 6, 1}
+	for _, v := range []byte{refmqtt.V5, refmqtt.V311} {
+		v := v
+		treeUnits(c, fmt.Sprintf("tree-lost-pubrec-v%d", v), len(lostAlpha), depth-1, func(seq []int) int {
+			full := make([]int, len(seq))
+			for i, e := range seq {
+				full[i] = lostAlpha[e]
+			}
+			return c04Run(c, v, full)
+		})
+	}
+	treeUnits(c, "tree-v5-publisher-recvmax1", c04MainN, depth-1, func(seq []int) int {
 		return c04Run(c, refmqtt.V5, seq, 1)
 	})
 	for _, v := range []byte{refmqtt.V5, refmqtt.V311} {
@@ -297,7 +400,7 @@ func runC04(c *explore.Ctx) {
 		if v == refmqtt.V311 && c.Quick() {
 			d = depth - 1 // the v3.1.1 path differs only in the acknowledgement encoding
 		}
-		treeUnits(c, fmt.Sprintf("tree-v%d", v), len(c04Events), d, func(seq []int) int {
+		treeUnits(c, fmt.Sprintf("tree-v%d", v), c04MainN, d, func(seq []int) int {
 			n := c04Run(c, v, seq)
 			if n == len(seq) && c.Get("executions")%5000 == 0 {
 				c.Sample(map[string]any{"version": v, "events": c04Names(seq)})
